@@ -40,6 +40,14 @@ class Text(object):
         return b is not None and a == b
 
 
+class Exact(object):
+    """an association list (a dict in the implementation) that must hold exactly the listed keys, each with a
+    matching value; the order of the keys is not demanded"""
+
+    def __init__(self, items):
+        self.items = items
+
+
 class Subset(object):
     """an association list of which every listed key must be present with a matching value"""
 
@@ -296,9 +304,22 @@ def asset_pattern(A):
     return P
 
 
-def animation_pattern(A):
-    P = {'sources': Subset([[s['id'], source_pattern(s, shape=False)] for s in A['sources']]),
-         'children': [animation_pattern(c) for c in A['children']]}
+def animation_sources(A):
+    out = list(A['sources'])
+    for c in A['children']:
+        out.extend(animation_sources(c))
+    return out
+
+
+def animation_pattern(A, top=True):
+    """a top-level animation's sourceById holds exactly the sources declared inside that <animation> and its
+    nested animations - with their own values, nothing from a sibling animation; a nested animation's holds at
+    least its own (pycollada lets it share its parent's dict)"""
+    if top:
+        srcs = Exact([[s['id'], source_pattern(s, shape=False)] for s in animation_sources(A)])
+    else:
+        srcs = Subset([[s['id'], source_pattern(s, shape=False)] for s in A['sources']])
+    P = {'sources': srcs, 'children': [animation_pattern(c, top=False) for c in A['children']]}
     if A['id'] is not None:
         P['id'] = A['id']
     if A['name'] is not None:
@@ -453,6 +474,21 @@ def compare(pat, got, path='', out=None, limit=8):
     if isinstance(pat, Text):
         if not pat.matches(got):
             out.append((path, pat.value, got))
+        return out
+    if isinstance(pat, Exact):
+        have = {}
+        if isinstance(got, list):
+            for kv in got:
+                have[kv[0]] = kv[1]
+        want = dict((k, v) for k, v in pat.items)
+        for k in have:
+            if k not in want:
+                out.append((path + '/' + str(k), 'absent (not declared inside this element)', 'present'))
+        for k, v in want.items():
+            if k not in have:
+                out.append((path + '/' + str(k), 'present', 'missing'))
+            else:
+                compare(v, have[k], path + '/' + str(k), out, limit)
         return out
     if isinstance(pat, Subset):
         have = {}
